@@ -117,17 +117,24 @@ structure StepMono (s s' : St) : Prop where
           (x.cancelled = true → x'.cancelled = true) ∧ (x'.st = .closed → x.st = .closed ∨ x'.cancelled = true)
   new : ∀ (n : Nat) (x' : Inst), s'.insts[n]? = some x' → s.insts.length ≤ n → x'.st ≠ .closed
   cr : ∀ c, s.croots.contains c = true → s'.croots.contains c = true
+  /-- an instance belongs to the same record for ever -/
+  rid : ∀ (n : Nat) (x : Inst), s.insts[n]? = some x → ∃ x' : Inst, s'.insts[n]? = some x' ∧ x'.rid = x.rid
 
 theorem StepMono.frame {s s' : St} (h1 : s'.insts = s.insts) (h2 : ∀ c, s.croots.contains c = true → s'.croots.contains c = true) :
     StepMono s s' := by
-  refine ⟨?_, ?_, h2⟩
+  refine ⟨?_, ?_, h2, ?_⟩
   · intro n x hx; exact ⟨x, by rw [h1]; exact hx, rfl, id, Or.inl⟩
   · intro n x' hx' hge; rw [h1] at hx'; have := get_lt hx'; omega
+  · intro n x hx; exact ⟨x, by rw [h1]; exact hx, rfl⟩
 
 /-- critical sections: existing instances keep their program counter and may be cancelled; a new one is waiting -/
 theorem StepMono.of_cs {s s' : St} (he : InstsExt s s') (hs : Shape s s') (hc : s'.croots = s.croots) :
     StepMono s s' := by
-  refine ⟨?_, ?_, by intro c h; rw [hc]; exact h⟩
+  refine ⟨?_, ?_, by intro c h; rw [hc]; exact h, ?_⟩
+  rotate_left 2
+  · intro n x hx
+    obtain ⟨y, hy, hle⟩ := he n x hx
+    exact ⟨y, hy, hle.1⟩
   · intro n x hx
     obtain ⟨y, hy, hle⟩ := he n x hx
     exact ⟨y, hy, hle.2.2.1, hle.2.2.2.2.2.2, by intro h; left; rw [← hle.2.2.2.1]; exact h⟩
@@ -153,10 +160,17 @@ theorem StepMono.of_cs {s s' : St} (he : InstsExt s s') (hs : Shape s s') (hc : 
         rw [this] at h2; cases h2
 
 theorem StepMono.of_setInst (s : St) (m : Nat) (x y : Inst) (hx : s.insts[m]? = some x) (hroot : y.root = x.root)
-    (hc : x.cancelled = true → y.cancelled = true) (hst : y.st = .closed → x.st = .closed ∨ y.cancelled = true) :
+    (hc : x.cancelled = true → y.cancelled = true) (hst : y.st = .closed → x.st = .closed ∨ y.cancelled = true)
+    (hrid : y.rid = x.rid := by rfl) :
     StepMono s (setInst s m y) := by
   have hlt := get_lt hx
-  refine ⟨?_, ?_, fun _ h => h⟩
+  refine ⟨?_, ?_, fun _ h => h, ?_⟩
+  rotate_left 2
+  · intro n z hz
+    by_cases hmn : m = n
+    · subst hmn; rw [hx] at hz; cases hz
+      exact ⟨y, by simp [setInst, hlt], hrid⟩
+    · exact ⟨z, by simp [setInst, List.getElem?_set, hmn, hz], rfl⟩
   · intro n z hz
     by_cases hmn : m = n
     · subst hmn; rw [hx] at hz; cases hz
@@ -196,7 +210,7 @@ theorem step_mono (s s' : St) (e : Ev) (ha : AllRec s) (hs : step s e = some s')
             · rename_i r hr
               simp at hs; subst hs
               have h1 := StepMono.of_cs (csok_apiCS s cf _ r hr).1 (apiCS_shape s cf _ r hr) (apiCS_croots s cf _ r hr)
-              exact ⟨h1.old, h1.new, h1.cr⟩
+              exact ⟨h1.old, h1.new, h1.cr, h1.rid⟩
             · cases hs
       · cases hs
     · cases hs
@@ -271,7 +285,7 @@ theorem step_mono (s s' : St) (e : Ev) (ha : AllRec s) (hs : step s e = some s')
       · split at hs
         · simp at hs; subst hs
           have h1 := StepMono.of_setInst s n x { x with st := .running } hx rfl id (by simp)
-          exact ⟨h1.old, h1.new, h1.cr⟩
+          exact ⟨h1.old, h1.new, h1.cr, h1.rid⟩
         · cases hs
       · cases hs
     · cases hs
@@ -302,7 +316,11 @@ theorem step_mono (s s' : St) (e : Ev) (ha : AllRec s) (hs : step s e = some s')
       · rename_i hgd
         have hk := recordCS_ok s s' cf n x dur hx hgd.1 hs
         have hlen := recordCS_len s s' cf n x dur hs
-        refine ⟨?_, ?_, by intro c h; rw [recordCS_croots s s' cf n x dur hs]; exact h⟩
+        refine ⟨?_, ?_, by intro c h; rw [recordCS_croots s s' cf n x dur hs]; exact h, ?_⟩
+        rotate_left 2
+        · intro m z hz
+          obtain ⟨y, hy, hle⟩ := hk.1.1 m z hz
+          exact ⟨y, hy, hle.1⟩
         · intro m z hz
           obtain ⟨y, hy, hle⟩ := hk.1.1 m z hz
           exact ⟨y, hy, hle.2.2.1, hle.2.2.2.2.2.2, by intro h; left; rw [← hle.2.2.2.1]; exact h⟩
